@@ -519,7 +519,7 @@ class Verifier(ExprMixin, StmtMixin, CallMixin, LibMixin, SpecMixin):
                 body = self.extract_segment(fdef, self.contract["segment"])
                 if self.contract["segment"].get("keep"):
                     body = self.slice_stmts(body, set(self.contract["segment"]["keep"]))
-                self.segment_loop_id = id(body[0])
+                self.segment_loop_id = id(next((b for b in body if isinstance(b, (ast.For, ast.While))), body[0]))   # '@segment' = the segment's (first) loop
                 names = list(self.contract.get("locals", {}))
                 ptypes = self.contract.get("locals", {})
                 res["segment_lines"] = [body[0].lineno, body[-1].end_lineno]
